@@ -843,3 +843,22 @@ package types
 
 // Rendering a vote type as text reads nothing but its argument.
 //@ trusted func GetReadableVoteTypeString(t kproto.SignedMsgType) (r string)
+
+// ---------------------------------------------------------------- C12: a change set is split into valid updates and removals
+// Every change ends up in exactly one of the two lists; updates carry a power in (0, MaxTotalVotingPower],
+// removals carry power 0; a negative or oversized power, or two adjacent entries (after sorting by
+// address) for one address, reject the whole change set.
+//@ func processChanges(origChanges []*Validator) (updates, removals []*Validator, err error)
+//@   for C12
+//@   requires forall i int :: 0 <= i && i < len(origChanges) ==> origChanges[i] != nil
+//@   modifies nothing
+//@   ensures [everyChangeClassified] err == nil ==> len(updates) + len(removals) == len(origChanges)
+//@   ensures [updatesHaveValidPower] err == nil ==> (forall k int :: 0 <= k && k < len(updates) ==> updates[k] != nil && 0 < updates[k].VotingPower && updates[k].VotingPower <= 1152921504606846975)
+//@   ensures [removalsHaveZeroPower] err == nil ==> (forall k int :: 0 <= k && k < len(removals) ==> removals[k] != nil && removals[k].VotingPower == 0)
+//@   ensures [rejectedReturnsNothing] err != nil ==> len(updates) == 0 && len(removals) == 0
+//@   loop 1:
+//@     invariant 0 <= iter && iter <= len(changes) && len(changes) == len(origChanges) && err == nil
+//@     invariant len(updates) + len(removals) == iter && cap(updates) == len(changes) && cap(removals) == len(changes) && fresh(updates) && fresh(removals) && !sameArray(updates, removals)
+//@     invariant forall k int :: 0 <= k && k < len(changes) ==> changes[k] != nil
+//@     invariant forall k int :: 0 <= k && k < len(updates) ==> updates[k] != nil && 0 < updates[k].VotingPower && updates[k].VotingPower <= 1152921504606846975
+//@     invariant forall k int :: 0 <= k && k < len(removals) ==> removals[k] != nil && removals[k].VotingPower == 0
